@@ -25,8 +25,8 @@ def O(pid):
 
 
 PROPS = {
-    "C01": P("model_checking", ARITH_RULE, 1200, 15000, *A("C01")),
-    "C02": P("model_checking", ARITH_RULE, 1200, 15000, *A("C02")),
+    "C01": P("model_checking", ARITH_RULE, 2500, 15000, *A("C01")),
+    "C02": P("model_checking", ARITH_RULE, 2500, 15000, *A("C02")),
     "C03": P("model_checking", ARITH_RULE, 700, 8000, *A("C03")),
     "C04": P("model_checking", GEN_RULE, 4000, 150000, *O("C04"), count_all=True),
     "C05": P("model_checking", GEN_RULE, 6000, 150000, [("MC_Text.tla", "MC_Text_syn_quick.cfg")], [("MC_Text.tla", "MC_Text_syn_thorough.cfg")], count_all=True),
@@ -54,6 +54,14 @@ for _t in ("quick", "thorough"):
 for _p, _q, _t in [("C01", 40, 1500), ("C02", 40, 1500), ("C03", 25, 800), ("C04", 25, 800), ("C06", 25, 800), ("C08", 25, 800), ("C11", 25, 800), ("C12", 25, 800), ("C19", 25, 800)]:
     PROPS[_p]["quick"]["calc"] = _q
     PROPS[_p]["thorough"]["calc"] = _t
+
+# the repository's own test vectors (testdata/) as an additional source of inputs: (shards, events per shard); the
+# thorough tier takes every line of the files that belong to the property
+for _p, _q, _t in [("C01", (2, 800), (8, 20000)), ("C02", (2, 800), (8, 20000)), ("C03", (2, 500), (8, 10000)), ("C04", (2, 1500), (8, 10000)),
+                   ("C08", (2, 1000), (4, 2000)), ("C15", (2, 1000), (8, 4000)), ("C16", (2, 150), (8, 200)), ("C17", (1, 270), (2, 200)),
+                   ("C18", (2, 150), (8, 2500)), ("C19", (2, 800), (8, 10000))]:
+    PROPS[_p]["quick"]["vec"] = _q
+    PROPS[_p]["thorough"]["vec"] = _t
 
 # the foundations of every oracle: BigNat against native integers, the three rounding formulations against each other
 PROPS["C02"]["quick"]["models"] = PROPS["C02"]["quick"]["models"] + [("MC_Dec.tla", "MC_Dec_quick.cfg")]
